@@ -1,5 +1,6 @@
 """Statement execution: assignments, control flow, loops cut at invariants, try/finally."""
 import ast
+import os
 import z3
 from .values import *   # noqa
 from .core import *     # noqa
@@ -694,7 +695,7 @@ class StmtMixin:
                 if isinstance(base, VPtr) and isinstance(self.cell(base), ObjCell):
                     c = self.cell(base)
                     cur = c.fields.get(locnode.attr)
-                    if isinstance(cur, VPtr):
+                    if isinstance(cur, VPtr) and loc not in spec.types:
                         self.havoc_cell(cur, node)
                         self._havoc_set.add(cur.addr)
                     else:
@@ -738,9 +739,18 @@ class StmtMixin:
                     for k in c0.fields if k not in fields[a])
                 if same:
                     writes.discard(a)
+                elif os.environ.get('PYVC_DEBUG'):
+                    with open('/dev/shm/pyvc_debug.txt', 'a') as _fp:
+                        print('loop write', a, [(k, c0.fields.get(k), c1.fields.get(k)) for k in set(c0.fields) | set(c1.fields)
+                                                if k not in fields[a] and c0.fields.get(k) is not c1.fields.get(k)], file=_fp)
         bad = [a for a in writes if a < head and a not in allowed]
+        if bad and os.environ.get('PYVC_DEBUG'):
+            with open('/dev/shm/pyvc_debug.txt', 'a') as _fp:
+                print('bad', bad, 'fields', fields, 'allowed', allowed, 'head', head, file=_fp)
         if bad:
-            self.limit('loop body writes a heap object that is not in the loop contract\'s modifies', node)
+            what = ', '.join(f'#{a}:{type(self.st.heap.get(a)).__name__}'
+                             + (f'({self.st.heap[a].cls})' if isinstance(self.st.heap.get(a), ObjCell) else '') for a in bad)
+            self.limit(f'loop body writes a heap object that is not in the loop contract\'s modifies [{what}]', node)
 
     def setcell(self, ptr, cell):
         for ent in getattr(self, '_wl_stack', []):
